@@ -124,6 +124,14 @@ class ClsV:
         return f"ClsV({self.name})"
 
 
+class ChoiceV:
+    """One of several non-mergeable values (functions, classes), selected by guards."""
+    __slots__ = ("options",)
+
+    def __init__(self, options):
+        self.options = list(options)     # [(cond, value)]
+
+
 class FuncV:
     """A bound or free function value (callable resolved by the executor)."""
     __slots__ = ("name", "self_val", "extra")
@@ -189,7 +197,7 @@ def boolify(v):
         return z3.Or(*[g for g, _ in v.items])
     if isinstance(v, SeqV):
         return v.n > 0
-    if isinstance(v, (ObjV, ClsV, FuncV)):
+    if isinstance(v, (ObjV, ClsV, FuncV, ChoiceV)):
         return z3.BoolVal(True)
     raise Unsupported(f"truthiness of {v!r}")
 
@@ -271,6 +279,10 @@ def merge_val(c, a, b, name="m"):
         return a
     if isinstance(a, FuncV) and isinstance(b, FuncV) and a.name == b.name:
         return a
+    if isinstance(a, (FuncV, ClsV, ChoiceV)) and isinstance(b, (FuncV, ClsV, ChoiceV)):
+        oa = a.options if isinstance(a, ChoiceV) else [(z3.BoolVal(True), a)]
+        ob = b.options if isinstance(b, ChoiceV) else [(z3.BoolVal(True), b)]
+        return ChoiceV([(z3.And(c, g), v) for g, v in oa] + [(z3.And(z3.Not(c), g), v) for g, v in ob])
     raise Unsupported(f"cannot merge {a!r} with {b!r} ({name})")
 
 
@@ -328,7 +340,7 @@ def fresh_like(v, name):
         return SeqV(fresh(name + ".arr", v.arr.sort()), fresh(name + ".n", I), v.elem)
     if isinstance(v, ListV):
         raise Unsupported(f"list {name} modified inside a loop that is cut by an invariant")
-    if isinstance(v, (ClsV, FuncV)):
+    if isinstance(v, (ClsV, FuncV, ChoiceV)):
         return v
     if type(v).__name__ == "CArr":
         # pointer: the offset changes; the pointed-to array is havocked separately when stored to
